@@ -273,6 +273,92 @@ def shifted_reference_stress(name, p):
 SHIFTED = ("jax.storakers", "jax.extended_tube", "jax.extended_tube[delta=0]")
 
 
+# ------------------------------------------------------------------------------------------------ references from the caller's numbers
+# (fourth audit: every stress clause is a product of the model's own P, every evolved state the model's own output, every error is
+# normalised by the model's own tangent - a stress that is lost, a state that is never written, an inflated tangent pass unseen)
+def _lame(p):
+    return p["mu"], p["lmbda"] + 2 * p["mu"] / 3
+
+
+# initial shear and bulk modulus (mu0, K0) of the entries of this check from the parameters handed to the constructor (parameters
+# that are not handed over take the default 0 of ``fun.kwargs``); the shared entries carry theirs in matreg (m.moduli)
+MODULI_EXTRA = {
+    "NeoHooke(mu,bulk=5000mu)[units]": lambda p: (p["mu"], p["bulk"]),
+    "OgdenRoxburgh(NeoHooke(mu))": lambda p: (p["mu"], None),
+    "OgdenRoxburgh(NeoHookeCompressible)": _lame,
+    "tt.ogden_roxburgh(ogden)": lambda p: (float(np.sum(p["mu"])), None),
+    "tt.ogden_roxburgh(saint_venant_kirchhoff)": _lame,
+    "tt.total_lagrange[statevars](damaged neo-hooke S)": _lame,
+    "tt.updated_lagrange[statevars](damaged neo-hooke sigma)": _lame,
+    "jax.total_lagrange[statevars](damaged neo-hooke S)": _lame,
+    "jax.updated_lagrange[statevars](damaged neo-hooke sigma)": _lame,
+    "tt.ogden[tuple,ndarray]": lambda p: (float(np.sum(p["mu"])), None),
+    "tt.third_order_deformation[defaults]": lambda p: (2 * p["C10"], None),
+    "jax.mooney_rivlin[defaults]": lambda p: (2 * p["C01"], None),
+}
+FLOOR = 1e-3  # measured on the unchanged tree (all entries with moduli, seeds 0..7, both state ranges): max|P| >= 0.44 x the floor below
+
+
+def own_moduli(m, p):
+    fun = MODULI_EXTRA.get(m.name) if m.name in EXTRA else m.moduli
+    return None if fun is None else fun(p)
+
+
+def stress_floor(mod, F):
+    """A stress every model with initial moduli (mu0, K0) exceeds by far at a deformed state: the distortional and the volumetric part
+    of the Kirchhoff stress are orthogonal (no cancellation), their linearisations are mu0 dev(C) and K0 (J - 1); from the caller's
+    parameters and the caller's F alone."""
+    Fm = np.moveaxis(np.asarray(F, float), (0, 1), (-2, -1))
+    J = np.linalg.det(Fm)
+    Cb = (J ** (-2 / 3))[..., None, None] * (np.swapaxes(Fm, -1, -2) @ Fm)
+    mu0, K0 = mod
+    return max((mu0 or 0.0) * maxabs(Cb - np.eye(3)), (K0 or 0.0) * maxabs(J - 1))
+
+
+def own_energy(kind, p, F):
+    """Strain energy density of the base law of a max-history model in plain numpy, from the parameters handed to the constructor
+    (closed forms of the docstrings); a function of C = F^T F, i.e. objective by construction."""
+    Fm = np.moveaxis(np.asarray(F, float), (0, 1), (-2, -1))
+    C = np.swapaxes(Fm, -1, -2) @ Fm
+    J, I1 = np.linalg.det(Fm), np.trace(C, axis1=-2, axis2=-1)
+    if kind == "neo_hooke":  # NeoHooke(mu, bulk) / neo_hooke(C, mu): mu/2 (J^-2/3 tr C - 3) + K/2 (J - 1)^2
+        return p["mu"] / 2 * (J ** (-2 / 3) * I1 - 3) + p.get("bulk", 0.0) / 2 * (J - 1) ** 2
+    if kind == "neo_hooke_compressible(documented)":  # NeoHookeCompressible: mu/2 tr C - mu ln J + lmbda/2 ln(J)^2 (no "- 3", as documented)
+        return p["mu"] / 2 * I1 - p["mu"] * np.log(J) + p["lmbda"] / 2 * np.log(J) ** 2
+    if kind == "neo_hooke_compressible":  # the law ``damaged`` of this check
+        return p["mu"] / 2 * (I1 - 3) - p["mu"] * np.log(J) + p["lmbda"] / 2 * np.log(J) ** 2
+    if kind == "ogden":  # sum_i 2 mu_i / alpha_i^2 (sum_a lambda_a^alpha_i - 3) in the distortional stretches
+        l2 = (J ** (-2 / 3))[..., None] * np.linalg.eigvalsh(C)
+        return sum(2 * mu / al ** 2 * ((l2 ** (al / 2)).sum(-1) - 3) for mu, al in zip(p["mu"], p["alpha"]))
+    if kind == "saint_venant_kirchhoff":  # mu tr(E^2) + lmbda/2 tr(E)^2, E = (C - 1)/2
+        E = (C - np.eye(3)) / 2
+        return p["mu"] * np.trace(E @ E, axis1=-2, axis2=-1) + p["lmbda"] / 2 * np.trace(E, axis1=-2, axis2=-1) ** 2
+    raise KeyError(kind)
+
+
+# models whose single state variable is the largest strain energy density of the history, Wmax_new = max(W(F), Wmax_old): base energy
+OWN_STATE = {
+    "OgdenRoxburgh(NeoHooke)": "neo_hooke",
+    "tt.ogden_roxburgh(neo_hooke)": "neo_hooke",
+    "OgdenRoxburgh(NeoHooke(mu))": "neo_hooke",
+    "OgdenRoxburgh(NeoHookeCompressible)": "neo_hooke_compressible(documented)",
+    "tt.ogden_roxburgh(ogden)": "ogden",
+    "tt.ogden_roxburgh(saint_venant_kirchhoff)": "saint_venant_kirchhoff",
+    "tt.total_lagrange[statevars](damaged neo-hooke S)": "neo_hooke_compressible",
+    "tt.updated_lagrange[statevars](damaged neo-hooke sigma)": "neo_hooke_compressible",
+    "jax.total_lagrange[statevars](damaged neo-hooke S)": "neo_hooke_compressible",
+    "jax.updated_lagrange[statevars](damaged neo-hooke sigma)": "neo_hooke_compressible",
+}
+# entries with a load history (matreg flag ``history``; asserted in the case): the state handed to the clauses differs from the virgin one
+HISTORY = ["OgdenRoxburgh(NeoHooke)", "tt.finite_strain_viscoelastic", "tt.ogden_roxburgh(neo_hooke)", "tt.lagrange.morph",
+           "tt.lagrange.morph_representative_directions", "tt.hyperelastic.morph_representative_directions", "jax.lagrange.morph",
+           "jax.lagrange.morph_representative_directions", "jax.Hyperelastic[nsv=6](viscoelastic)", "tt.finite_strain_viscoelastic[parallel]",
+           "tt.total_lagrange[statevars](damaged neo-hooke S)", "tt.updated_lagrange[statevars](damaged neo-hooke sigma)",
+           "jax.total_lagrange[statevars](damaged neo-hooke S)", "jax.updated_lagrange[statevars](damaged neo-hooke sigma)",
+           "tt.microsphere.affine_stretch_statevars(chain)", "tt.microsphere.affine_tube_statevars(chain)", "tt.ogden_roxburgh(ogden)",
+           "tt.ogden_roxburgh(saint_venant_kirchhoff)", "OgdenRoxburgh(NeoHooke(mu))", "OgdenRoxburgh(NeoHookeCompressible)"]
+
+
 def case_model(name, rep):
     def fn(run):
         m = lookup(name)
@@ -306,6 +392,16 @@ def case_model(name, rep):
                 Ff[:, :, k] = Rm @ Qm @ kinds[(k + rep // 2) % 4](float(rng.uniform(0.8, 1.35))) @ Qm.T
             run.units["states:coincident-principal-stretches"] += 1
         sv = C03.prior_state(m, um, rng, batch)
+        assert m.history == (name in HISTORY)
+        if m.history:
+            # "state variables reached through a random prior history" is an output of the model: against the virgin state of the harness
+            # registry it must have moved (a state that is never written leaves every case on the virgin branch: the unit stays unreached);
+            # measured on the unchanged tree: relative change >= 4e-2 for every entry
+            sv_virgin = m.initial_statevars(batch)
+            if maxabs(np.asarray(sv, float) - sv_virgin) > 1e-6 * max(maxabs(sv), maxabs(sv_virgin)):
+                run.units[name + ":state-evolved"] += 1
+            else:
+                run.skip("material.invariance", "the prior history did not change the state variables: only the virgin branch is observed")
         if sched % 3 == 1:
             # what a caller may hand over as well: Fortran-ordered, read-only arrays (the rotated arguments below are C-ordered:
             # a result that depends on the memory layout breaks objectivity / isotropy)
@@ -334,12 +430,26 @@ def case_model(name, rep):
             return
         sA = max(maxabs(A), 1e-300)
         sP = sA  # errors are normalised by the scale of the whole object, max|dP/dF| (DESIGN 3.5-2)
+        # every stress clause below is a product of the model's own P: a stress that is lost while the tangent lives satisfies all of them.
+        # At a deformed state (F^T F != 1) the stress is not zero, and for entries with initial moduli not below FLOOR x the linearised
+        # stress from the caller's parameters (states with distinct stretches only): otherwise the stress clauses are not judged and their
+        # units stay unreached (inconclusive); the clauses of the elasticity are judged all the same
+        stress_live = True
+        mod = own_moduli(m, p)
+        if maxabs(MM.mm(np.swapaxes(F, 0, 1), F) - np.eye(3).reshape(3, 3, 1, 1)) > 1e-3:
+            if maxabs(P) == 0.0 or (mod is not None and rep % 2 == 0 and maxabs(P) < FLOOR * stress_floor(mod, F)):
+                stress_live = False
+                run.skip(mon, "stress without response at a deformed state (max|P| below %g x the linearised stress of the caller's moduli) while the "
+                              "tangent responds: stress clauses vacuous" % FLOOR)
+            elif mod is not None and rep % 2 == 0:
+                run.units["stress-floor-from-caller-moduli"] += 1
+        judge_stress = run.compare if stress_live else (lambda *a, **k: None)  # same calls and draws, nothing judged or booked
         Q = special_rotations(rng, batch)
         # 1 objectivity
         QF = MM.mm(Q, F)
         gq = um.gradient([QF, sv])
         Pq = np.asarray(gq[0], float)
-        run.compare(mon, "model=%s clause=objectivity" % name, maxabs(Pq - MM.mm(Q, P)) / sP, tol_exact,
+        judge_stress(mon, "model=%s clause=objectivity" % name, maxabs(Pq - MM.mm(Q, P)) / sP, tol_exact,
                     "%s: P(QF) != Q P(F)" % name, unit=name + ":objectivity", config=(name, "objectivity"),
                     sample={"model": name, "params": {k: v for k, v in p.items() if not hasattr(v, "shape")}, "clause": "objectivity"})
         state_returned = True
@@ -354,26 +464,29 @@ def case_model(name, rep):
         if state_returned and svn is not None and gq[-1] is not None and np.size(svn):
             ssv = max(maxabs(svn), 1e-300)
             run.compare(mon, "model=%s clause=objectivity-statevars" % name, maxabs(np.asarray(gq[-1]) - np.asarray(svn)) / ssv, 1e-8,
-                        "%s: updated state variables change under a superposed rigid rotation" % name, unit=name + ":objectivity")
+                        "%s: updated state variables change under a superposed rigid rotation" % name, unit=name + ":objectivity" if stress_live else None)
         Aq = np.broadcast_to(np.asarray(um.hessian([QF, sv])[0], float), (3, 3, 3, 3) + batch)
         Aref = np.einsum("ia...,kc...,ajcl...->ijkl...", Q, Q, A)
         run.compare(mon, "model=%s clause=objectivity-elasticity" % name, maxabs(Aq - Aref) / sA, tol_elasticity(m, 1e-8),
                     "%s: A(QF) != Q Q : A(F)" % name, unit=name + ":objectivity-elasticity", config=(name, "objectivity-A"))
         # 2 Kirchhoff stress symmetric
         tau = MM.mmT(P, F)
-        run.compare(mon, "model=%s clause=kirchhoff-symmetric" % name, maxabs(tau - np.swapaxes(tau, 0, 1)) / sA, tol_exact,
+        judge_stress(mon, "model=%s clause=kirchhoff-symmetric" % name, maxabs(tau - np.swapaxes(tau, 0, 1)) / sA, tol_exact,
                     "%s: P F^T is not symmetric" % name, unit=name + ":tau-symmetric", config=(name, "tau"))
         if name in CEILING_TAU:
             # the clause above is a recorded finding of this model (matched by its key, whatever the size): a ceiling well above the
             # recorded size keeps the clause alive for anything new and large (this model is a user of total_lagrange with state)
-            run.compare(mon, "model=%s clause=kirchhoff-symmetric-ceiling" % name, maxabs(tau - np.swapaxes(tau, 0, 1)) / sA, CEILING_TAU[name],
+            judge_stress(mon, "model=%s clause=kirchhoff-symmetric-ceiling" % name, maxabs(tau - np.swapaxes(tau, 0, 1)) / sA, CEILING_TAU[name],
                         "%s: asymmetry of P F^T far above the size of the recorded finding" % name, unit=name + ":tau-ceiling", config=(name, "tau-ceiling"))
         # 3 stress-free virgin reference
         I = np.eye(3).reshape(3, 3, 1, 1).copy()
         sv0 = m.initial_statevars((1, 1))
         P0 = np.asarray(um.gradient([I, sv0])[0], float)
         A0 = np.asarray(um.hessian([I.copy(), sv0])[0], float)
-        run.compare(mon, "model=%s clause=stress-free-reference" % name, maxabs(P0) / max(maxabs(A0), 1e-300), max(tol, 1e-10),
+        # (normalised by the smaller of the model's own initial tangent and twice max|A(I)| = 4/3 mu0 + K0 of the caller's moduli: an inflated
+        # tangent does not loosen the clause)
+        sA0 = max(maxabs(A0), 1e-300) if mod is None else max(min(maxabs(A0), 2 * (4 / 3 * (mod[0] or 0.0) + (mod[1] or 0.0))), 1e-300)
+        judge_stress(mon, "model=%s clause=stress-free-reference" % name, maxabs(P0) / sA0, max(tol, 1e-10),
                     "%s: the undeformed configuration with virgin state is not stress free" % name, unit=name + ":stress-free",
                     config=(name, "stress-free"), detail={"P(I)": P0[..., 0, 0]})
         if name in SHIFTED:
@@ -391,7 +504,7 @@ def case_model(name, rep):
             R = special_rotations(rng, batch)
             FR = MM.mmT(F, R)
             Pr = np.asarray(um.gradient([FR, sv])[0], float)
-            run.compare(mon, "model=%s clause=material-isotropy" % name, maxabs(Pr - MM.mmT(P, R)) / sP, tol,
+            judge_stress(mon, "model=%s clause=material-isotropy" % name, maxabs(Pr - MM.mmT(P, R)) / sP, tol,
                         "%s: P(F Q^T) != P(F) Q^T" % name, unit=name + ":isotropy", config=(name, "isotropy"))
             # the same rotation of the reference configuration, differentiated: A(F R^T)_iJkL = R_JM R_LN A(F)_iMkN
             if tol_isotropy_elasticity(m) is None:
@@ -414,9 +527,32 @@ def case_model(name, rep):
                 err = max(err, maxabs(np.asarray(gr[0], float) - MM.mmT(np.asarray(gk[0], float), R)))
             # (tt.lagrange.morph: the recorded eigvalsh finding breaks this clause as well, at 5e-3..2e-2; only a ceiling is judged)
             clause, tol_h = ("material-isotropy-history", tol) if name not in CEILING_HISTORY else ("material-isotropy-history-ceiling", CEILING_HISTORY[name])
-            run.compare(mon, "model=%s clause=%s" % (name, clause), err / max(maxabs(Ak), 1e-300), tol_h,
+            judge_stress(mon, "model=%s clause=%s" % (name, clause), err / max(maxabs(Ak), 1e-300), tol_h,
                         "%s: a history F_k R^T from the virgin state does not give the stresses P_k R^T" % name, unit=name + ":isotropy-history",
                         config=(name, "isotropy-history"))
+        # 7 states from the caller's numbers (all states above are the model's own output): the single state variable of the max-history
+        # models is Wmax; handed over as c W_own(F), c = 0 (primary loading) and c = 3 (unloading, away from the switch) alternating
+        # over the batch, with W_own the closed-form energy of the base law from the constructor's parameters. Frame indifference with
+        # an independent reference: the new state at Q F is max(W_own(F), Wmax) of the un-rotated F, the stress at Q F is Q P(F)
+        if name in OWN_STATE:
+            W = own_energy(OWN_STATE[name], p, F).reshape(1, *batch)
+            c = np.where(np.arange(W.size) % 2 == 0, 0.0, 3.0).reshape(W.shape)
+            s_own = c * W
+            s_new = np.maximum(W, s_own)
+            go, gqo = um.gradient([F, s_own]), um.gradient([QF, s_own])
+            sW = (mod[0] or 0.0) + maxabs(s_new)  # energy scale from the caller's parameters
+            for tag, a in (("F", go[-1]), ("QF", gqo[-1])):
+                ok_shape = a is not None and np.shape(a) == (1,) + batch
+                run.compare(mon, "model=%s clause=objectivity-statevars-own-history" % name, maxabs(np.asarray(a, float) - s_new) / sW if ok_shape else np.inf,
+                            tol, "%s: the new state at %s is not max(W(F), Wmax) of the caller's energy and state" % (name, tag),
+                            unit=name + ":own-state", config=(name, "own-state"), detail={"argument": tag})
+            Po, Pqo = np.asarray(go[0], float), np.asarray(gqo[0], float)
+            judge_stress(mon, "model=%s clause=objectivity-own-state" % name, maxabs(Pqo - MM.mm(Q, Po)) / sP, tol_exact,
+                         "%s: P(QF) != Q P(F) at a state from the caller's numbers (loading and unloading branch)" % name,
+                         unit=name + ":own-state-objectivity", config=(name, "own-state-objectivity"))
+            tau = MM.mmT(Po, F)
+            judge_stress(mon, "model=%s clause=kirchhoff-symmetric-own-state" % name, maxabs(tau - np.swapaxes(tau, 0, 1)) / sA, tol_exact,
+                         "%s: P F^T is not symmetric at a state from the caller's numbers" % name, unit=name + ":own-state-objectivity")
     return fn
 
 
@@ -448,6 +584,9 @@ def _required():
     req += [n + ":isotropy" for n in ISO + ISO_EXTRA] + [n + ":major-symmetry" for n in HYPER + HYPER_EXTRA]
     req += [n + ":isotropy-elasticity" for n in ISO + ISO_EXTRA if n not in SHIFTED] + [n + ":isotropy-history" for n in ISO_HISTORY]
     req += [n + ":stress-free-shift" for n in SHIFTED] + [n + ":tau-ceiling" for n in CEILING_TAU]
+    # fourth audit: evolved states (against the registry's virgin state), states and floors from the caller's numbers
+    req += [n + ":state-evolved" for n in HISTORY] + [n + ":own-state" for n in OWN_STATE] + [n + ":own-state-objectivity" for n in OWN_STATE]
+    req += ["stress-floor-from-caller-moduli"]
     # reached by the reps of the quick tier for every seed (scheduled by index)
     req += ["batch:(1,n)", "batch:(n,1)", "batch:(2,3)", "layout:fortran-readonly", "statevars:empty-array", "states:coincident-principal-stretches",
             "states:stretches-0.3-to-3", "stiffness-unit:1", "stiffness-unit:1e-06"]
@@ -463,13 +602,21 @@ SPEC = {
              "Lagrange wrappers, micro-sphere frameworks with state and with the other chain law, other base laws of the pseudo-elastic models, constructor flags, stiffness units "
              "1e-6 / 1 / 1e6, parameter containers, partially given parameters) x random admissible parameters x deformation gradients R Q diag(lambda) Q^T (lambda in "
              "[0.75,1.4], distinct; or coincident) x trailing shapes (1,n), (n,1), (2,3), Fortran-ordered read-only arguments, empty state arrays x Haar rotations "
-             "plus a 180-degree and a near-identity rotation; state variables reached through a random prior history; a configuration is distinct by (model, clause)"),
+             "plus a 180-degree and a near-identity rotation; state variables reached through a random prior history, for max-history models also states "
+             "from the caller's numbers (c W_own(F), c = 0 / 3); a configuration is distinct by (model, clause)"),
     "assumptions": ["models whose source perturbs eigenvalues are allowed 100 x (tensortrax eigvalsh, 1.5e-8) resp. 30 x (jax storakers/extended_tube/"
                     "morph, 1e-4) the documented perturbation on the clauses it can touch (stress-free reference, isotropy, tensortrax second "
                     "derivatives); objectivity and the symmetry of P F^T are judged at 1e-9 for every model", "material isotropy is asserted for isotropic non-micro-sphere models with scalar or no "
                     "state variables at fixed state (stress and elasticity), with tensor-valued state by a whole history in the rotated reference frame",
                     "P(I) of jax storakers / extended_tube is additionally compared at 1e-10 with the closed-form effect of their documented 1e-4 shift",
-                    "the two recorded findings stay matched by key; the asymmetry of P F^T of tt.lagrange.morph is additionally bounded by a ceiling"],
+                    "the two recorded findings stay matched by key; the asymmetry of P F^T of tt.lagrange.morph is additionally bounded by a ceiling",
+                    "stress clauses are judged only where the stress responds: max|P| > 0 at a deformed state, and >= 1e-3 x the linearised stress of the "
+                    "caller's moduli (max(mu0 max|J^-2/3 C - 1|, K0 max|J - 1|)) for entries with documented initial moduli; otherwise their units stay "
+                    "unreached (inconclusive)", "the prior history of every model with state variables has moved the state away from the registry's virgin "
+                    "state (unit <model>:state-evolved)", "max-history models (Ogden-Roxburgh family, damaged Neo-Hooke of the Lagrange wrappers) are "
+                    "additionally driven at states c W_own(F), c = 0 / 3, from closed-form energies of the caller's parameters: the new state at F and "
+                    "Q F equals max(W_own(F), Wmax), the stress is objective and P F^T symmetric on both branches", "the stress-free clause is normalised "
+                    "by min(max|A(I)| of the model, 2 (4/3 mu0 + K0) of the caller's moduli)"],
     "jobs": {"quick": 12, "thorough": 16},
     "timeout": {"quick": 1200, "thorough": 5400},
 }
